@@ -57,6 +57,18 @@ class Tr:
     def __init__(self, consts):
         self.consts = consts          # dotted name -> python value
         self.assigned = []            # names assigned in the body (pre-declared in the initial environment by the tie)
+        self.rngs = set()             # local names bound to rng.Random() objects
+        self.site = 0                 # call-site counter of random draws (source order): the oracle is indexed by it
+        self.pre = None               # statements hoisted out of the expression being translated (x.pop())
+        self.tmp = 0
+
+    def fresh(self):
+        self.tmp += 1
+        return '$%d' % self.tmp
+
+    def draw(self, kind, args):
+        self.site += 1
+        return '(ECall %s [%s])' % (cstring('rand.%s#%d' % (kind, self.site)), '; '.join(args))
 
     # ---- expressions ----
     def expr(self, e):
@@ -104,11 +116,23 @@ class Tr:
             return '(EConst (VInt (%d)))' % (-e.operand.value)
         if isinstance(e, ast.UnaryOp) and isinstance(e.op, ast.USub):
             return '(ESub (EConst (VInt (0))) %s)' % self.expr(e.operand)
+        if isinstance(e, ast.BinOp) and isinstance(e.op, ast.Sub) and isinstance(e.left, ast.Call) \
+                and isinstance(e.left.func, ast.Name) and e.left.func.id == 'set':
+            return '(ESetDiff %s %s)' % (self.expr(e.left), self.expr(e.right))      # set(...) - b
         if isinstance(e, ast.BinOp):
             op = {ast.Add: 'EAdd', ast.Sub: 'ESub', ast.Mult: 'EMul', ast.Div: 'EDiv'}.get(type(e.op))
             if op is None:
                 raise Untranslatable('operator %s' % type(e.op).__name__)
             return '(%s %s %s)' % (op, self.expr(e.left), self.expr(e.right))
+        if isinstance(e, ast.Subscript) and isinstance(e.slice, ast.Constant) and e.slice.value == 0 and isinstance(e.value, ast.Call) \
+                and dotted(e.value.func) in ('np.where', 'numpy.where') and len(e.value.args) == 1 and not e.value.keywords \
+                and isinstance(e.value.args[0], ast.Compare) and len(e.value.args[0].ops) == 1:
+            # np.where(arr OP c)[0]: the indices of the entries that satisfy the comparison, ascending
+            c = e.value.args[0]
+            op = {ast.Eq: 'EEq', ast.NotEq: 'ENe', ast.Lt: 'ELt', ast.LtE: 'ELe', ast.Gt: 'EGt', ast.GtE: 'EGe'}.get(type(c.ops[0]))
+            if op is None or not isinstance(c.comparators[0], ast.Constant):
+                raise Untranslatable('np.where condition')
+            return '(EEnumFilter "$i" "$x" (%s (EVar "$x") %s) (EVar "$i") %s)' % (op, self.expr(c.comparators[0]), self.expr(c.left))
         if isinstance(e, ast.Subscript):
             idx = e.slice
             if isinstance(idx, ast.Slice):
@@ -120,6 +144,34 @@ class Tr:
             return '(EIndex %s %s)' % (self.expr(e.value), self.expr(idx))
         if isinstance(e, ast.Call):
             f = e.func
+            if isinstance(f, ast.Attribute) and isinstance(f.value, ast.Name) and f.value.id in self.rngs and not e.keywords \
+                    and f.attr in ('sample', 'randint', 'random'):
+                # a random draw: an ORACLE indexed by its call site (each site of the tied functions runs at most once per call)
+                return self.draw(f.attr, [self.expr(a) for a in e.args])
+            if dotted(f) == 'lkupTab.lookUpCharge' and len(e.args) == 1 and not e.keywords:
+                return '(ECall "lookUpCharge" [%s])' % self.expr(e.args[0])      # the residue table (tied by charge_tie)
+            if dotted(f) in ('np.append', 'numpy.append') and len(e.args) == 2 and not e.keywords:
+                return '(EAdd %s (EListLit [%s]))' % (self.expr(e.args[0]), self.expr(e.args[1]))   # a new array, one entry longer
+            if dotted(f) in ('cp.deepcopy', 'copy.deepcopy') and len(e.args) == 1 and not e.keywords:
+                return self.expr(e.args[0])        # values of the embedding are immutable: a deep copy is the value
+            if dotted(f) in ('np.arange', 'numpy.arange', 'range') and len(e.args) in (1, 2) and not e.keywords:
+                lo = self.expr(e.args[0]) if len(e.args) == 2 else '(EConst (VInt (0)))'
+                return '(ERange %s %s)' % (lo, self.expr(e.args[-1]))
+            if isinstance(f, ast.Name) and f.id == 'sorted' and len(e.args) == 1 and not e.keywords:
+                return '(ESorted %s)' % self.expr(e.args[0])
+            if isinstance(f, ast.Attribute) and f.attr == 'pop' and isinstance(f.value, ast.Name) and not e.keywords \
+                    and (not e.args or (len(e.args) == 1 and isinstance(e.args[0], ast.Constant) and e.args[0].value == 0)):
+                # x.pop() / x.pop(0) inside an expression: hoisted in front of the statement ($t = x[-1]; x = x[:-1])
+                if self.pre is None or self.pre:
+                    raise Untranslatable('pop() where it cannot be hoisted (or two of them in one statement)')
+                x, t = cstring(f.value.id), cstring(self.fresh())
+                if e.args:
+                    self.pre += ['(SAssign %s (EIndex (EVar %s) (EConst (VInt (0)))))' % (t, x),
+                                 '(SAssign %s (ESlice (EVar %s) (EConst (VInt (1))) (EConst VNone)))' % (x, x)]
+                else:
+                    self.pre += ['(SAssign %s (EIndex (EVar %s) (EConst (VInt (-1)))))' % (t, x),
+                                 '(SAssign %s (ESlice (EVar %s) (EConst VNone) (EConst (VInt (-1)))))' % (x, x)]
+                return '(EVar %s)' % t
             if isinstance(f, ast.Attribute) and isinstance(f.value, ast.Name) and f.value.id == 'self':
                 # a call of another method of the object: interpreted by the tie's primitive table
                 name = f.attr + ''.join('|' + k.arg for k in e.keywords)
@@ -197,6 +249,44 @@ class Tr:
         return cstring(d)
 
     def stmt(self, s):
+        simple = isinstance(s, (ast.Assign, ast.AugAssign, ast.Return)) or \
+            (isinstance(s, ast.Expr) and isinstance(s.value, ast.Call) and isinstance(s.value.func, ast.Attribute) and s.value.func.attr == 'append')
+        self.pre = [] if simple else None
+        out = self.stmt1(s)
+        pre, self.pre = self.pre, None
+        for h in reversed(pre or []):
+            out = '(SSeq %s %s)' % (h, out)
+        return out
+
+    def assign_to(self, t, rhs):
+        if isinstance(t, ast.Subscript) and not isinstance(t.slice, ast.Slice):
+            return '(SSetItem %s %s %s)' % (self.target(t.value), self.expr(t.slice), rhs)
+        return '(SAssign %s %s)' % (self.target(t), rhs)
+
+    def stmt1(self, s):
+        if isinstance(s, ast.Assign) and len(s.targets) == 1 and isinstance(s.value, ast.Call) and dotted(s.value.func) == 'rng.Random' \
+                and not s.value.args and isinstance(s.targets[0], ast.Name):
+            self.rngs.add(s.targets[0].id)                      # rand = rng.Random(): the generator is the oracle
+            return 'SSkip'
+        if isinstance(s, ast.Expr) and isinstance(s.value, ast.Call) and isinstance(s.value.func, ast.Attribute) \
+                and isinstance(s.value.func.value, ast.Name) and s.value.func.value.id in self.rngs:
+            f = s.value.func
+            if f.attr == 'seed':
+                return 'SSkip'
+            if f.attr == 'shuffle' and len(s.value.args) == 1 and isinstance(s.value.args[0], ast.Name):
+                x = s.value.args[0].id                          # in-place shuffle: the oracle returns the new order
+                return '(SAssign %s %s)' % (self.target(s.value.args[0]), self.draw('shuffle', ['(EVar %s)' % cstring(x)]))
+            raise Untranslatable('statement on a random generator')
+        if isinstance(s, ast.Assign) and len(s.targets) == 1 and isinstance(s.targets[0], ast.Tuple) and isinstance(s.value, ast.Tuple) \
+                and len(s.targets[0].elts) == len(s.value.elts):
+            # a, b = x, y : every right-hand side is evaluated before any target is assigned
+            tmps = [self.fresh() for _ in s.value.elts]
+            out = ['(SAssign %s %s)' % (cstring(t), self.expr(v)) for t, v in zip(tmps, s.value.elts)]
+            out += [self.assign_to(t, '(EVar %s)' % cstring(tmp)) for t, tmp in zip(s.targets[0].elts, tmps)]
+            r = out[-1]
+            for h in reversed(out[:-1]):
+                r = '(SSeq %s %s)' % (h, r)
+            return r
         if isinstance(s, ast.Expr):
             v = s.value
             if isinstance(v, ast.Constant) and isinstance(v.value, str):
@@ -296,6 +386,10 @@ FUNCS = [
     ('g_Omega', 'localcider/backend/sequence.py', 'Sequence', 'Omega', []),
     ('g_Omega_seq', 'localcider/backend/sequence.py', 'Sequence', 'Omega_seq', []),
     ('g_parseSeqFile', 'localcider/backend/seqfileparser.py', 'SequenceFileParser', 'parseSeqFile', []),
+    ('g_init_core', 'localcider/backend/sequence.py', 'Sequence', '__init__', [], ('upto', 'self.dmax = dmax')),
+    ('g_swapRes', 'localcider/backend/sequence.py', 'Sequence', 'swapRes', []),
+    ('g_full_shuffle', 'localcider/backend/sequence.py', 'Sequence', 'full_shuffle', []),
+    ('g_swapRandChargeRes', 'localcider/backend/sequence.py', 'Sequence', 'swapRandChargeRes', []),
 ]
 
 
